@@ -15,11 +15,33 @@ pub fn parse_nt(src: &str) -> Result<Result<NT, EErr>, PanicInfo> {
 }
 
 fn check_rendering(ast: &Ast, want: &NT, mode: Parens, compact: bool, st: &mut Stats) {
+    check_rendering_with(ast, want, mode, compact, None, st)
+}
+
+/// `separator`: if given, the tokens are joined by it instead of single spaces (a line feed, a tab ...).
+fn check_rendering_with(ast: &Ast, want: &NT, mode: Parens, compact: bool, separator: Option<&str>, st: &mut Stats) {
     let r = Renderer::render(ast, mode);
     if mode == Parens::BarePrefixAfterExp && !r.dropped {
         return;
     }
-    let src = if compact { join_compact(&r.out) } else { join_spaced(&r.out) };
+    let src = match separator {
+        Some(sep) => {
+            let src = r.out.iter().map(|t| t.text()).collect::<Vec<_>>().join(sep);
+            // admissible only if the reference lexer reads the same tokens as from the spaced rendering
+            // (`/` next to `/**/` starts a line comment)
+            match (crate::refmodel::lexer::lex(&src), crate::refmodel::lexer::lex(&join_spaced(&r.out))) {
+                (Ok(a), Ok(b)) if crate::refmodel::lexer::same_tokens(&a, &b) => src,
+                _ => return,
+            }
+        },
+        None => {
+            if compact {
+                join_compact(&r.out)
+            } else {
+                join_spaced(&r.out)
+            }
+        },
+    };
     st.evaluations += 1;
     let viol = |kind: &str, actual: String| Violation {
         property: ID,
@@ -83,6 +105,12 @@ fn check_shape(shape: &Ast, idx: u64, all_extras: bool, light: bool, count_disti
             check_rendering(&ast, &want, Parens::Minimal, compact, st);
             check_rendering(&ast, &want, Parens::Full, compact, st);
             check_rendering(&ast, &want, Parens::BarePrefixAfterExp, compact, st);
+        }
+        // the same tokens on separate lines, separated by tabs, by a comment: layout is not syntax
+        if variant == 0 {
+            for sep in ["\n", "\t", " \n ", "/**/", " //c\n"] {
+                check_rendering_with(&ast, &want, Parens::Minimal, false, Some(sep), st);
+            }
         }
         let npos = Renderer::positions(&ast);
         if all_extras {
@@ -293,7 +321,7 @@ pub fn run(cfg: &Cfg) -> Report {
     Report {
         property: ID,
         level: "exploration",
-        rule: format!("every AST with <= {k_full} operator nodes over the full alphabet (14 binary, 2 prefix, 9 assignment operators, f e, f(), f(l, r)) and with <= {k_rep} over one representative per precedence/associativity class; per AST: all-variable leaves plus each leaf replaced by a literal (all four literal kinds for ASTs with <= 2 operators, kinds cycled above), and for ASTs with <= 2 operators every variable, assignment-target and function position named like a builtin (`max`, `if`, `math::abs`, `len`, `str::from`, `floor`) in turn; renderings: minimal parentheses, fully parenthesised, `x ^ -y` bare-prefix form where applicable, redundant pair (single and doubled) at every sub-expression for ASTs with <= 2 operators and at one rotating position above; each with single-space and compact spacing. the deepest representative level of the thorough tier is checked with the minimal rendering only; plus every flat infix sequence of <= 5 (quick) / 6 (thorough) binary operators over all 14 (reference: precedence climbing), plus scaling families (same-operator chains for all 14 operators, assignment chains, prefix chains, call chains, right-nested groups, precedence ladders up and down) at every size 1..20 and 33, 64, 65, 129 (quick) / 1..40 and up to 400 (thorough). Non-trivial = at least two operator nodes; every AST is enumerated once (representative ASTs are counted only above the full-alphabet size)"),
+        rule: format!("every AST with <= {k_full} operator nodes over the full alphabet (14 binary, 2 prefix, 9 assignment operators, f e, f(), f(l, r)) and with <= {k_rep} over one representative per precedence/associativity class; per AST: all-variable leaves plus each leaf replaced by a literal (all four literal kinds for ASTs with <= 2 operators, kinds cycled above), and for ASTs with <= 2 operators every variable, assignment-target and function position named like a builtin (`max`, `if`, `math::abs`, `len`, `str::from`, `floor`) in turn; renderings: minimal parentheses, fully parenthesised, `x ^ -y` bare-prefix form where applicable, redundant pair (single and doubled) at every sub-expression for ASTs with <= 2 operators and at one rotating position above; each with single-space and compact spacing; the minimal rendering of the all-variable variant also with its tokens on separate lines, separated by tabs and by comments. the deepest representative level of the thorough tier is checked with the minimal rendering only; plus every flat infix sequence of <= 5 (quick) / 6 (thorough) binary operators over all 14 (reference: precedence climbing), plus scaling families (same-operator chains for all 14 operators, assignment chains, prefix chains, call chains, right-nested groups, precedence ladders up and down) at every size 1..20 and 33, 64, 65, 129 (quick) / 1..40 and up to 400 (thorough). Non-trivial = at least two operator nodes; every AST is enumerated once (representative ASTs are counted only above the full-alphabet size)"),
         nontrivial_set: "counter:nontrivial-distinct",
         exhaustive: true,
         bound_completed: format!("AST size {k_full} (full alphabet), {k_rep} (class representatives)"),
